@@ -37,6 +37,9 @@ import slice
 
 type R = {A: int; B: string}
 
+// never used: the same field names as R, its name sorts after R - an unqualified {A=..; B=..} is an R for both transpilers
+type Rz = {A: int; B: string}
+
 type U =
   | I of int
   | S of string
